@@ -448,15 +448,15 @@ func c15r5(rc *core.RC) {
 	})
 	rc.Check(lower, "decoder.structDecoder.tryOptimize/keys-lowercased", fd.Pos(), "keys are lower-cased with strings.ToLower before they are put in the bitmap")
 	rc.Check(refuse, "decoder.structDecoder.tryOptimize/non-ascii-refused", fd.Pos(), "the optimisation is refused when strings.ToLower(k) differs from toASCIILower(k) (the decoders fold ASCII only)")
-	// the table itself folds exactly A-Z: its init loop is opaque to the evaluator; check the loop body shape
-	initOK := false
+	// the table itself: fold its filling loop (constant bounds) and compare all 256 entries with ASCII lower-casing
+	bp := &core.BytePred{P: p}
+	filled := false
 	for _, f := range p.Funcs("decoder") {
 		if f.Name.Name != "init" || f.Body == nil {
 			continue
 		}
 		finfo := p.Info(f)
 		assigns := false
-		var consts = map[int64]bool{}
 		ast.Inspect(f.Body, func(n ast.Node) bool {
 			if as, ok := n.(*ast.AssignStmt); ok {
 				for _, l := range as.Lhs {
@@ -465,18 +465,40 @@ func c15r5(rc *core.RC) {
 					}
 				}
 			}
-			if e, ok := n.(ast.Expr); ok {
-				if v, ok := core.ConstInt(finfo, e); ok {
-					consts[v] = true
-				}
-			}
 			return true
 		})
-		if assigns && consts['A'] && consts['Z'] && consts['a'-'A'] && consts[256] {
-			initOK = true
+		if !assigns {
+			continue
+		}
+		if !bp.ExecBody(finfo, f.Body) {
+			rc.Unknown("decoder.largeToSmallTable/init", f.Pos(), "the init function that fills the table is outside the evaluated subset (loops with constant bounds, assignments, if)")
+			return
+		}
+		filled = true
+	}
+	if !filled {
+		rc.Unknown("decoder.largeToSmallTable/init", token.NoPos, "no init function assigns the table")
+		return
+	}
+	var wrong []string
+	for b := int64(0); b < 256; b++ {
+		want := b
+		if b >= 'A' && b <= 'Z' {
+			want = b + 'a' - 'A'
+		}
+		got, ok := bp.Stores[tbl][b]
+		if !ok {
+			got = 0
+		}
+		if got != want && len(wrong) < 6 {
+			wrong = append(wrong, fmt.Sprintf("[%q]=%q (want %q)", rune(b), rune(got), rune(want)))
 		}
 	}
-	rc.Check(initOK, "decoder.largeToSmallTable/init", token.NoPos, "the table is filled for all 256 bytes, shifting exactly 'A'..'Z' by 'a'-'A'")
+	if len(wrong) == 0 {
+		rc.OK("decoder.largeToSmallTable/init", tbl.Pos(), "all 256 entries evaluated: 'A'..'Z' map to 'a'..'z', every other byte to itself")
+	} else {
+		rc.Bad("decoder.largeToSmallTable/init", tbl.Pos(), "the case-folding table differs from ASCII lower-casing at %s: keys that differ from a field name only in that letter's case stop matching", strings.Join(wrong, ", "))
+	}
 }
 
 // ---- C15.R6 the bitmap row index stays inside the bitmap ----
